@@ -54,12 +54,17 @@ def gen_units(rng, lib, n):
     def add(kind, expr, pre=""):
         if expr not in seen:
             seen.add(expr)
-            out.append({"kind": kind, "expr": expr, "pre": pre})
+            out.append({"kind": kind, "expr": expr, "pre": pre, "_forced": forced[0] if forced else None})
     k = 0
     guard = 0
-    while len(out) < n and guard < 50 * n:
+    # one unit of every kind first (directed), then random kinds
+    forced = [0.07, 0.2, 0.3, 0.4, 0.55, 0.65, 0.75, 0.82, 0.87, 0.92, 0.97]
+    while (len(out) < n or forced) and guard < 50 * n + 200:
         guard += 1
-        r = rng.random()
+        before = len(out)
+        if forced and guard > 1 and len(out) > 0 and out[-1].get("_forced") == forced[0]:
+            forced.pop(0)
+        r = forced[0] if forced else rng.random()
         u = rng.choice(names)
         if r < 0.14:
             add("scaled-int", f"decltype({au_(u)}{{}} * au::mag<{rng.choice([2, 3, 7, 12, 60, 1000, 5280, rng.randrange(2, 100000)])}>())")
@@ -100,8 +105,29 @@ def gen_units(rng, lib, n):
     return out
 
 
+def directed_units():
+    """Shapes that must be judged in every run: unitless units (a Quantity of which converts implicitly to its rep, so
+    built-in operators become candidates), quantity-equivalent but differently typed units, scaling by exactly ONE,
+    units with a chrono counterpart, units with a non-trivial origin."""
+    D = [("unitless", "au::UnitProductT<>"),
+         ("unitless-quotient", "decltype(au::Meters{} / au::Meters{})"),
+         ("unitless-equivalent", "decltype(au::Percent{} * au::mag<100>())"),
+         ("equivalent-to-library", "decltype(au::Inches{} * au::mag<12>())"),
+         ("equivalent-to-library", "au::UnitInverseT<au::Seconds>"),
+         ("scaled-by-one", "decltype(au::Meters{} * au::mag<1>())"),
+         ("chrono-counterpart", "au::Milli<au::Seconds>"),
+         ("chrono-counterpart", "au::Nano<au::Seconds>"),
+         ("chrono-counterpart", "decltype(au::Seconds{} * au::mag<60>())"),
+         ("origin", "decltype(au::Celsius{} * au::mag<2>())")]
+    return [{"kind": k, "expr": e, "pre": "", "directed": True} for k, e in D]
+
+
 COMMON = r'''
 #include <chrono>
+#include <csetjmp>
+#include <csignal>
+#include <sys/resource.h>
+#include <unistd.h>
 #include <cstdint>
 #include <cstdio>
 #include <cstdlib>
@@ -117,8 +143,12 @@ typedef __int128 i128;
 struct Raw { i128 i; long double f; };
 struct Num { i128 i; long double f; int kind; };      // kind: 0 int, 1 f32, 2 f64, 3 f80
 enum { K_ADD, K_SUB, K_ZADD, K_RADD, K_RSUB, K_RZADD, K_IN, K_PADD, K_ZPADD,
-       K_I0, K_I1, K_I2, K_I3, K_I4, K_I5, K_I6, K_N };
-struct Obs { bool qz[6], zq[6], rqz[6], rzq[6]; bool padd_eq, zpadd_eq; Num v[K_N]; };
+       K_PE, K_ME, K_INM, K_INR, K_IND,
+       K_I0, K_I1, K_I2, K_I3, K_I4, K_I5, K_I6, K_I7, K_I8, K_I9, K_I10, K_I11, K_N };
+#define K_ILAST K_I11
+// qz/zq: `q op ZERO` / `ZERO op q` spelled with the constant; qt/tq: spelled with a temporary `Zero{}` and a named
+// non-constexpr `Zero` object (other value categories of the same type)
+struct Obs { bool qz[6], zq[6], qt[6], tq[6], rqz[6], rzq[6]; bool padd_eq, zpadd_eq; Num v[K_N]; };
 struct PObs { bool c[6]; Num add, sub; };
 struct Desc {
     const char *rep, *sumrep, *difrep, *zsumrep;
@@ -161,6 +191,11 @@ struct Inst {
         o.qz[3] = (q <= au::ZERO); o.qz[4] = (q > au::ZERO); o.qz[5] = (q >= au::ZERO);
         o.zq[0] = (au::ZERO == q); o.zq[1] = (au::ZERO != q); o.zq[2] = (au::ZERO < q);
         o.zq[3] = (au::ZERO <= q); o.zq[4] = (au::ZERO > q); o.zq[5] = (au::ZERO >= q);
+        au::Zero zv;   // a named lvalue of type Zero
+        o.qt[0] = (q == au::Zero{}); o.qt[1] = (q != zv); o.qt[2] = (q < au::Zero{});
+        o.qt[3] = (q <= zv); o.qt[4] = (q > au::Zero{}); o.qt[5] = (q >= zv);
+        o.tq[0] = (zv == q); o.tq[1] = (au::Zero{} != q); o.tq[2] = (zv < q);
+        o.tq[3] = (au::Zero{} <= q); o.tq[4] = (zv > q); o.tq[5] = (au::Zero{} >= q);
         // the right-hand sides of the statement, literally, by the compiler's built-in operators
         const R v = q.in(U{});
         o.rqz[0] = (v == 0); o.rqz[1] = (v != 0); o.rqz[2] = (v < 0); o.rqz[3] = (v <= 0); o.rqz[4] = (v > 0); o.rqz[5] = (v >= 0);
@@ -178,6 +213,21 @@ struct Inst {
         Conv<R>::put(o.v[K_I0], a.in(U{})); Conv<R>::put(o.v[K_I1], b.in(U{})); Conv<R>::put(o.v[K_I2], c.in(U{}));
         Conv<R>::put(o.v[K_I3], d.in(U{})); Conv<R>::put(o.v[K_I4], e.in(U{})); Conv<R>::put(o.v[K_I5], f.in(U{}));
         Conv<R>::put(o.v[K_I6], g.in(U{}));
+        // other entry points for reading the value back: maker as unit slot, rep-explicit form, data_in; the documented
+        // default-member-initialiser idiom; array / aggregate initialisation
+        struct Holder { Q m = au::ZERO; };
+        Holder hd; Q arr[2] = {au::ZERO, q}; struct Agg { Q m; }; Agg ag{au::ZERO};
+        Conv<R>::put(o.v[K_I7], a.in(au::QuantityMaker<U>{}));
+        Conv<R>::put(o.v[K_I8], a.template in<R>(U{}));
+        Conv<R>::put(o.v[K_I9], hd.m.in(U{}));
+        Conv<R>::put(o.v[K_I10], arr[0].data_in(U{}));
+        Conv<R>::put(o.v[K_I11], ag.m.in(U{}));
+        Conv<R>::put(o.v[K_INM], q.in(au::QuantityMaker<U>{}));
+        Conv<R>::put(o.v[K_INR], q.template in<R>(U{}));
+        Conv<R>::put(o.v[K_IND], arr[1].data_in(U{}));
+        // compound assignment: the operand slot is a Quantity
+        Q pe = q; pe += au::ZERO; Q me = q; me -= au::ZERO;
+        Conv<R>::put(o.v[K_PE], pe.in(U{})); Conv<R>::put(o.v[K_ME], me.in(U{}));
         // a point plus ZERO: the right operand is a *quantity* slot (Diff)
         const P p = au::make_quantity_point<U>(x);
         const auto ps = p + au::ZERO; const auto zps = au::ZERO + p;
@@ -267,9 +317,26 @@ static int cls_f32(uint32_t b) {
 static const char* OR_QZ[4] = {"011100", "100101", "010011", "010000"};
 static const char* OR_ZQ[4] = {"010011", "100101", "011100", "010000"};
 @CONV_DECLS@
-int main() {
+// traps: a signal while evaluating one request is reported as the answer to that request, naming the input
+static sigjmp_buf g_jb; static volatile sig_atomic_t g_armed = 0; static volatile i128 g_curx = 0;
+static void on_sig(int sg) { if (g_armed) siglongjmp(g_jb, sg); _exit(128 + sg); }
+int main(int argc, char** argv) {
+    if (argc > 1) { struct rlimit rl; rl.rlim_cur = (rlim_t)atol(argv[1]); rl.rlim_max = rl.rlim_cur + 10; setrlimit(RLIMIT_CPU, &rl); }
+    { const int sgs[] = {SIGFPE, SIGSEGV, SIGBUS, SIGILL, SIGABRT, SIGTRAP, SIGXCPU};
+      for (int sg : sgs) { struct sigaction sa; memset(&sa, 0, sizeof sa); sa.sa_handler = on_sig; sigemptyset(&sa.sa_mask); sigaction(sg, &sa, nullptr); } }
     static char line[4096];
     while (fgets(line, sizeof line, stdin)) {
+        { size_t L = strlen(line); while (L && (line[L - 1] == '\n' || line[L - 1] == '\r')) line[--L] = 0; }
+        g_curx = 0;
+        int sg = sigsetjmp(g_jb, 1);
+        if (sg) {
+            g_armed = 0;
+            printf("T signal=%d curx=%s request=%s\n", sg, s128(g_curx).c_str(), line);
+            fflush(stdout);
+            if (sg == SIGXCPU || sg == SIGABRT) _exit(3);       // not safe to go on (CPU budget spent / inside a sanitizer report)
+            continue;
+        }
+        g_armed = 1;
         if (line[0] == 'D') {
             for (int c = 0; c < n_chunks; ++c) for (int i = 0; i < chunk_sizes[c]; ++i) {
                 const Entry& e = chunks[c][i];
@@ -283,12 +350,14 @@ int main() {
             const Entry* e = find(id); if (!e) { puts("bad"); continue; }
             Raw r = parse_raw(*e, a); Obs o; long ub0 = g_ub;
             e->eval(r, o);
-            printf("P %d %s qz=%s zq=%s rqz=%s rzq=%s in=%s add=%s sub=%s zadd=%s radd=%s rsub=%s rzadd=%s padd=%s zpadd=%s ptype=%d%d init=",
-                   id, a, bits6(o.qz).c_str(), bits6(o.zq).c_str(), bits6(o.rqz).c_str(), bits6(o.rzq).c_str(),
-                   fmt(o.v[K_IN]).c_str(), fmt(o.v[K_ADD]).c_str(), fmt(o.v[K_SUB]).c_str(), fmt(o.v[K_ZADD]).c_str(),
+            printf("P %d %s qz=%s zq=%s qt=%s tq=%s rqz=%s rzq=%s in=%s inm=%s inr=%s ind=%s pe=%s me=%s add=%s sub=%s zadd=%s radd=%s rsub=%s rzadd=%s padd=%s zpadd=%s ptype=%d%d init=",
+                   id, a, bits6(o.qz).c_str(), bits6(o.zq).c_str(), bits6(o.qt).c_str(), bits6(o.tq).c_str(),
+                   bits6(o.rqz).c_str(), bits6(o.rzq).c_str(),
+                   fmt(o.v[K_IN]).c_str(), fmt(o.v[K_INM]).c_str(), fmt(o.v[K_INR]).c_str(), fmt(o.v[K_IND]).c_str(),
+                   fmt(o.v[K_PE]).c_str(), fmt(o.v[K_ME]).c_str(), fmt(o.v[K_ADD]).c_str(), fmt(o.v[K_SUB]).c_str(), fmt(o.v[K_ZADD]).c_str(),
                    fmt(o.v[K_RADD]).c_str(), fmt(o.v[K_RSUB]).c_str(), fmt(o.v[K_RZADD]).c_str(),
                    fmt(o.v[K_PADD]).c_str(), fmt(o.v[K_ZPADD]).c_str(), int(o.padd_eq), int(o.zpadd_eq));
-            for (int k = K_I0; k <= K_I6; ++k) printf("%s%s", k == K_I0 ? "" : ",", fmt(o.v[k]).c_str());
+            for (int k = K_I0; k <= K_ILAST; ++k) printf("%s%s", k == K_I0 ? "" : ",", fmt(o.v[k]).c_str());
             printf(" ub=%ld\n", g_ub - ub0);
         } else if (line[0] == 'Q') {
             int id, da, ds; char a[64], b[64];
@@ -310,29 +379,31 @@ int main() {
                 std::string xs;
                 if (e->d.fkind == 0) { r.i = x; cl = cls_int(x); }
                 else { uint32_t b = (uint32_t)x; float f; memcpy(&f, &b, 4); r.f = f; cl = cls_f32(b); }
-                ++n; ++cls_n[cl];
+                ++n; ++cls_n[cl]; g_curx = x;
                 Obs o; long ub0 = g_ub;
                 e->eval(r, o);
                 bool c_ok = true, o_ok = true, r_ok = true;
                 for (int k = 0; k < 6; ++k) {
                     if (o.qz[k] != (cert[cl][k] == '1') || o.zq[k] != (cert[cl][6 + k] == '1')) c_ok = false;
                     if (o.qz[k] != (OR_QZ[cl][k] == '1') || o.zq[k] != (OR_ZQ[cl][k] == '1')) o_ok = false;
+                    if (o.qt[k] != (OR_QZ[cl][k] == '1') || o.tq[k] != (OR_ZQ[cl][k] == '1')) o_ok = false;
                     if (o.qz[k] != o.rqz[k] || o.zq[k] != o.rzq[k]) r_ok = false;
                 }
                 // q + ZERO, q - ZERO, ZERO + q: the same number (exact); inits: the number 0
                 bool v_ok = true, i_ok = true;
                 if (e->d.fkind == 0) {
                     v_ok = o.v[K_ADD].i == x && o.v[K_SUB].i == x && o.v[K_ZADD].i == x && o.v[K_IN].i == x &&
-                           o.v[K_PADD].i == x && o.v[K_ZPADD].i == x;
+                           o.v[K_PADD].i == x && o.v[K_ZPADD].i == x && o.v[K_PE].i == x && o.v[K_ME].i == x &&
+                           o.v[K_INM].i == x && o.v[K_INR].i == x && o.v[K_IND].i == x;
                     if (o.v[K_ADD].i != o.v[K_RADD].i || o.v[K_SUB].i != o.v[K_RSUB].i || o.v[K_ZADD].i != o.v[K_RZADD].i) r_ok = false;
-                    for (int k = K_I0; k <= K_I6; ++k) if (o.v[k].i != 0 || o.v[k].kind != 0) i_ok = false;
+                    for (int k = K_I0; k <= K_ILAST; ++k) if (o.v[k].i != 0 || o.v[k].kind != 0) i_ok = false;
                 } else {
                     uint32_t b = (uint32_t)x;
-                    const int ks[5] = {K_ADD, K_SUB, K_ZADD, K_PADD, K_ZPADD};
-                    for (int j = 0; j < 5; ++j) {
+                    const int ks[10] = {K_ADD, K_SUB, K_ZADD, K_PADD, K_ZPADD, K_PE, K_ME, K_INM, K_INR, K_IND};
+                    for (int j = 0; j < 10; ++j) {
                         float y = (float)o.v[ks[j]].f; uint32_t yb; memcpy(&yb, &y, 4);
                         if (cl == 3) { if (cls_f32(yb) != 3) v_ok = false; }
-                        else if (cl == 1) { if (cls_f32(yb) != 1) v_ok = false; if (ks[j] == K_SUB && yb != b) v_ok = false; }
+                        else if (cl == 1) { if (cls_f32(yb) != 1) v_ok = false; if ((ks[j] == K_SUB || ks[j] == K_ME || ks[j] >= K_INM) && yb != b) v_ok = false; }
                         else if (yb != b) v_ok = false;
                     }
                     const int rs[3] = {K_RADD, K_RSUB, K_RZADD};
@@ -340,7 +411,7 @@ int main() {
                         float y = (float)o.v[ks[j]].f, w = (float)o.v[rs[j]].f; uint32_t yb, wb; memcpy(&yb, &y, 4); memcpy(&wb, &w, 4);
                         if (!(yb == wb || (cls_f32(yb) == 3 && cls_f32(wb) == 3))) r_ok = false;
                     }
-                    for (int k = K_I0; k <= K_I6; ++k) { float y = (float)o.v[k].f; uint32_t yb; memcpy(&yb, &y, 4); if (yb != 0) i_ok = false; }
+                    for (int k = K_I0; k <= K_ILAST; ++k) { float y = (float)o.v[k].f; uint32_t yb; memcpy(&yb, &y, 4); if (yb != 0) i_ok = false; }
                 }
                 if (!c_ok && !cm++) fcm = s128(x);
                 if (!o_ok && !om++) fom = s128(x);
@@ -357,6 +428,7 @@ int main() {
             conv_lines();
             puts("END");
         } else { puts("bad"); }
+        g_armed = 0;
         fflush(stdout);
     }
     return 0;
@@ -370,7 +442,8 @@ ARITH_TYPES = ["bool", "char", "signed char", "unsigned char", "wchar_t", "char1
                "int64_t", "uint64_t", "size_t", "ptrdiff_t"]
 DUR_REPS = ["int8_t", "uint8_t", "int16_t", "uint16_t", "int32_t", "uint32_t", "int64_t", "uint64_t", "float",
             "double", "long double", "long long", "unsigned long long", "int"]
-STD_PERIODS = [(1, 10 ** 9), (1, 10 ** 6), (1, 1000), (1, 1), (60, 1), (3600, 1), (86400, 1), (1, 3), (7, 5)]
+STD_PERIODS = [(1, 10 ** 9), (1, 10 ** 6), (1, 1000), (1, 1), (60, 1), (3600, 1), (86400, 1), (604800, 1), (2629746, 1),
+               (31556952, 1), (1, 3), (7, 5), (2, 4), (1, 10 ** 18), (10 ** 18, 1)]
 
 CONV_TMPL = r'''
 template <class T> static T c19_takes(T t) { return t; }
